@@ -37,6 +37,7 @@ def operandRat (p : Int × Int) : Rat := (p.1 : Rat) / (p.2 : Rat)
 
 def showErr : Err → String
   | .div0 => "err:div0" | .type => "err:type" | .expt0 => "err:expt0" | .unmodelled => "unmodelled"
+  | .arity => "err:arity" | .resource => "resource" | .inexact => "inexact"
 
 def showRes {α} (f : α → String) : Res α → String
   | .ok v => f v
